@@ -51,7 +51,20 @@ type c13op struct {
 	arg  int64
 }
 
-func c13tm(x int64) time.Time { return c13T0.Add(time.Duration(x) * time.Second) }
+// c13Far: a due time / end bound "never" — 9999-12-31T23:59:59Z, far outside the range a time.Duration or UnixNano can
+// express (whatever orders or subtracts instants must not wrap there)
+var c13FarDate = time.Date(9999, 12, 31, 23, 59, 59, 0, time.UTC)
+var c13Far = c13FarDate.Unix() - c13T0.Unix()
+
+// c13sec: whole seconds since c13T0 (through Unix seconds: a time.Duration saturates after 292 years)
+func c13sec(t time.Time) int64 { return t.Unix() - c13T0.Unix() }
+
+func c13tm(x int64) time.Time {
+	if x >= c13Far-100000 {
+		return c13FarDate.Add(time.Duration(x-c13Far) * time.Second)
+	}
+	return c13T0.Add(time.Duration(x) * time.Second)
+}
 
 func c13opt(x int64) string {
 	if x == c13NoTime {
@@ -214,8 +227,8 @@ func (r *c13run) observe() (fires []int64, stuck string) {
 			select {
 			case _, ok := <-r.ch:
 				if ok {
-					fires = append(fires, int64(r.clk.Now().Sub(c13T0)/time.Second))
-					if r.clk.Now().Sub(c13T0)%time.Second != 0 {
+					fires = append(fires, c13sec(r.clk.Now()))
+					if r.clk.Now().Nanosecond() != 0 {
 						stuck = "subsecond"
 					}
 				} else {
@@ -250,7 +263,7 @@ func (r *c13run) armed() string {
 	ts := r.clk.VerifArmed()
 	xs := make([]int64, len(ts))
 	for i, t := range ts {
-		xs[i] = int64(t.Sub(c13T0) / time.Second)
+		xs[i] = c13sec(t)
 	}
 	sort.Slice(xs, func(i, j int) bool { return xs[i] < xs[j] })
 	return c13list(xs)
@@ -374,7 +387,11 @@ func c13grid(d c13def) []int64 {
 	}
 	switch d.kind {
 	case "date":
-		add(d.start-1, d.start, d.start+1, d.start+1000, 1, 2000)
+		if d.start == c13Far {
+			add(1, 2000, 50000, d.start-1, d.start)
+		} else {
+			add(d.start-1, d.start, d.start+1, d.start+1000, 1, 2000)
+		}
 	case "duration":
 		add(d.interval-1, d.interval, d.interval+1, d.interval+1000, 1, 2000)
 	default:
@@ -405,7 +422,7 @@ func c13grid(d c13def) []int64 {
 func c13defs() []c13def {
 	var ds []c13def
 	for _, via := range []string{"new", "hook"} {
-		for _, t := range []int64{10, 0, -5} {
+		for _, t := range []int64{10, 0, -5, c13Far} {
 			ds = append(ds, c13def{via: via, kind: "date", start: t, end: c13NoTime})
 		}
 		for _, x := range []int64{10, 0} {
@@ -424,6 +441,8 @@ func c13defs() []c13def {
 		{20, 10, 40}, // end exactly on a due time
 		{20, 10, 30}, // R/start/end: the parser makes interval = end - start
 		{20, 10, 15}, // end before the start
+		{N, 10, c13Far},  // an end bound written as a far-future "never" date
+		{20, 10, c13Far},
 	}
 	for _, sh := range shapes {
 		for _, reps := range []int{0, 1, 2, 3, -1} {
@@ -750,7 +769,7 @@ func c13ecase(out *rec.Out, d c13def, ops []c13op, hold int, stats map[string]in
 			ts := clk.VerifArmed()
 			xs := make([]int64, len(ts))
 			for i, t := range ts {
-				xs[i] = int64(t.Sub(c13T0) / time.Second)
+				xs[i] = c13sec(t)
 			}
 			sort.Slice(xs, func(i, j int) bool { return xs[i] < xs[j] })
 			return c13list(xs)
@@ -802,7 +821,8 @@ func c13ejobs(tier string) []c13ejob {
 		defs = append(defs,
 			c13def{via: "new", kind: "cycle", reps: reps, start: N, interval: 10, end: N},
 			c13def{via: "new", kind: "cycle", reps: reps, start: 20, interval: 10, end: N},
-			c13def{via: "new", kind: "cycle", reps: reps, start: N, interval: 10, end: 25})
+			c13def{via: "new", kind: "cycle", reps: reps, start: N, interval: 10, end: 25},
+			c13def{via: "new", kind: "cycle", reps: reps, start: N, interval: 10, end: c13Far})
 	}
 	if os.Getenv("C13E_PAST") != "" {
 		// experiment (not part of the check): due time already reached when the process is created
